@@ -321,6 +321,49 @@ pub fn ref_optimum_dp(frags: &[Frag], widths: &[f64], pen: &Pen) -> f64 {
     b[n]
 }
 
+/// Same minimum as `ref_optimum_dp`, with prefix sums (O(n^2) instead of O(n^3)) for the long
+/// inputs of the scale probes.  All widths are small integers, so the sums are exact and the
+/// two functions agree bit for bit (asserted by the callers on short inputs).
+pub fn ref_optimum_dp_fast(frags: &[Frag], widths: &[f64], pen: &Pen) -> f64 {
+    assert!(widths.len() <= 2);
+    let n = frags.len();
+    let mut pre = vec![0.0f64; n + 1];
+    for (k, f) in frags.iter().enumerate() {
+        pre[k + 1] = pre[k] + f.w + f.ws;
+    }
+    let mut b = vec![f64::INFINITY; n + 1];
+    b[0] = 0.0;
+    for j in 1..=n {
+        let last = &frags[j - 1];
+        for i in (0..j).rev() {
+            let target = width_of_line(if i == 0 { 0 } else { 1 }, widths);
+            let width = pre[j] - pre[i] - last.ws + last.p;
+            let mut c = pen.nline;
+            if width > target {
+                c += (width - target) * pen.overflow;
+            } else if j < n {
+                let g = target - width;
+                c += g * g;
+            } else if i + 1 == j && width < target / pen.fraction {
+                c += pen.short;
+            }
+            if last.p > 0.0 {
+                c += pen.hyphen;
+            }
+            let total = b[i] + c;
+            if total < b[j] {
+                b[j] = total;
+            }
+            // lines only get wider as i decreases (non-negative widths): once the overflow cost
+            // alone exceeds the best total found for j, no smaller i can win
+            if width > target && pen.overflow > 0.0 && c >= b[j] {
+                break;
+            }
+        }
+    }
+    b[n]
+}
+
 /// C18 reference: margin = longest common whitespace prefix of the lines that
 /// contain a non-whitespace character.
 pub fn ref_dedent_lines(s: &str) -> Vec<String> {
